@@ -38,11 +38,32 @@ def nm(n):
 
 
 # ------------------------------------------------------------------ skeleton programs
+def gen_target(r, depth):
+    """assignment target: (driver tokens, jinja text, is a bare name)"""
+    k = r.random()
+    if depth <= 0 or k < 0.45:
+        if r.random() < 0.75:
+            n = r.choice([10, 11, 12])
+            return ["n", str(n)], nm(n)
+        return ["c"], r.choice(["1", "'s'", "true", "none", "2.5"])
+    items = [gen_target(r, depth - 1) for _ in range(r.randint(1, 3))]
+    toks = ["t", str(len(items))]
+    for t, _ in items:
+        toks += t
+    txt = "(" + ", ".join(s for _, s in items) + ("," if len(items) == 1 else "") + ")"
+    return toks, txt
+
+
 def gen_skel(r, depth, budget):
     """returns (tokens for the driver, jinja source builder)"""
     k = r.random()
     if depth <= 0 or budget[0] <= 0 or k < 0.22:
         k2 = r.random()
+        if k2 < 0.18:
+            tt, ts = gen_target(r, 3)
+            if r.random() < 0.5:
+                return ["G"] + tt, "{% set " + ts + " = x %}"
+            return ["G"] + tt, "{% for " + ts + " in x %}{% endfor %}"
         if k2 < 0.3:
             return ["T"], "t"
         if k2 < 0.5:
@@ -379,6 +400,7 @@ PROBES = [
     ("default", "{{ f(\ufb01=1, fi=2) }}"),
     ("default", "{% set \u00b5 = 1 %}{% set \u03bc = 2 %}"),
     ("default", "{% macro m(a=1, b) %}{% endmacro %}"),
+    ("default", "{{ \u0663.\u0665 }}"), ("default", "{{ 1e\u0665 }}"), ("default", "{{ 0x\u0663 }}"),
     ("default", "{% macro m(caller) %}{{ caller() }}{% endmacro %}"),
     ("default", "{% for loop in x %}{% endfor %}"),
     ("default", "{% set class = 1 %}{{ class }}{% macro def(None_, lambda) %}{{ lambda }}{% endmacro %}{{ f(class=1, def=2) }}"),
@@ -419,9 +441,24 @@ def oracle(ctx):
             for _ in range(ctx.rng.randint(1, 3)):
                 m = mutate(ctx.rng, m)
             work.append((cfg, m))
+    # (iv) expression contents over a Unicode-heavy alphabet (digits that are not 0-9, letters that are
+    # not identifier characters, surrogates, control and line-separator characters), exhaustively
+    UNI = ["\u0663", ".", "\u0665", "e", "1", "_", "0x", "\u00b2", "\u2160", "\ufb01", "\u0301", "\ud800", "\x00",
+           "\u2028", "\x85", "\x0c", "'", "a", "-", "\U0001f40d"]
+    n_uni = 0
+    for n in range(1, ctx.size(3, 4) + 1):
+        for tup in itertools.product(UNI, repeat=n):
+            body = "".join(tup)
+            work.append(("default", "{{ " + body + " }}"))
+            n_uni += 1
+            if n <= 2:
+                work.append(("default", "{% set x = " + body + " %}"))
+                work.append(("line", "# if " + body + "\n# endif"))
+                n_uni += 2
+    ctx.count("oracle_unicode_expressions", n_uni)
     work += PROBES
     ctx.count("oracle_exhaustive", n_exh)
-    ctx.count("oracle_generated_and_mutated", len(work) - n_exh - len(PROBES))
+    ctx.count("oracle_generated_and_mutated", len(work) - n_exh - len(PROBES) - n_uni)
     ctx.count("oracle_probes", len(PROBES))
     chunks = [work[i:i + 400] for i in range(0, len(work), 400)]
     t0 = time.time()
